@@ -7,6 +7,9 @@
 (* carrying initial records) followed by 10..MaxOps operations: dispenses *)
 (* in the stock's own unit family, in a convertible one, in another       *)
 (* category; stock creation/deletion; unit conversions there and back.    *)
+(* Some records mix categories between used and remaining (with used at   *)
+(* exactly 0), so that a dispense fails on the second conversion after    *)
+(* the first has succeeded: the failed call must still change nothing.    *)
 (***************************************************************************)
 EXTENDS Vending, TLC, Json
 
@@ -23,8 +26,19 @@ Families == << {"LITER", "CUBIC_METER"}, {"LITER", "CUBIC_METER"}, {"LITER"}, {"
 Amount(u, k) == CASE u = "LITER" -> 125000 * k [] u = "CUBIC_METER" -> 125 * k [] OTHER -> 500 * k
 
 UnitIn(z, fam) == IF Flip(z, 90) THEN R(fam) ELSE R(Units)
-OptQ(z, fam, maxk) == IF Flip(z, 70) THEN LET u == UnitIn(z, fam) IN Q(u, Amount(u, R(0..maxk))) ELSE NoQ
-StockRec(z, n, fam) == [name |-> n, used |-> OptQ(z, fam, 40), remaining |-> OptQ(z, fam, 40)]
+\* amounts: exactly zero fairly often (a fresh counter; proto3 treats a zero scalar as unpopulated)
+K(z, maxk) == IF Flip(z, 20) THEN 0 ELSE R(0..maxk)
+OptQ(z, fam, maxk) == IF Flip(z, 70) THEN LET u == UnitIn(z, fam) IN Q(u, Amount(u, K(z, maxk))) ELSE NoQ
+OtherCat(z, fam) == R({ u \in Units : \A f \in fam : Cat(u) # Cat(f) })
+\* one record in six is "mixed": used in the family's unit (mostly a fresh 0), remaining in another category, so
+\* that a dispense in the family's unit converts for the first quantity and fails for the second
+StockRec(z, n, fam) ==
+  IF Flip(z, 16)
+  THEN LET u == R(fam)
+           r == OtherCat(z, fam)
+       IN IF Flip(z, 75) THEN [name |-> n, used |-> Q(u, IF Flip(z, 65) THEN 0 ELSE Amount(u, R(1..40))), remaining |-> Q(r, Amount(r, K(z, 40)))]
+          ELSE [name |-> n, used |-> Q(r, Amount(r, K(z, 40))), remaining |-> Q(u, Amount(u, K(z, 40)))]
+  ELSE [name |-> n, used |-> OptQ(z, fam, 40), remaining |-> OptQ(z, fam, 40)]
 
 Op(z, fams) ==
   LET op == Pick(z, <<"Dispense", "Dispense", "Dispense", "Dispense", "Dispense", "Dispense", "CreateStock", "DeleteStock", "Convert">>)
